@@ -9,9 +9,12 @@ RESAMPLERS = ("resizer::resample_nearest", "Resizer::resample_convolution",
               "Resizer::resample_super_sampling", "Resizer::do_convolution")
 
 
+COPY_NAMES = {"copy_image"}
+
+
 def _is_copy_ok_edge(cond, val):
     """edge on which `copy_image(..).is_ok()` is true"""
-    inner = _has(cond, lambda x: x[0] == "callat" and x[2] == "copy_image")
+    inner = _has(cond, lambda x: x[0] == "callat" and x[2] in COPY_NAMES)
     if not inner:
         return None
     if _has(cond, lambda x: x[0] in ("call", "callat") and (x[1] == "is_ok" or x[2] == "is_ok")):
@@ -32,14 +35,25 @@ def fast_path(rep, prog, rule):
     copy = [c for c in f.calls() if c.name.endswith("resizer::copy_image")]
     res = [c for c in f.calls() if any(c.name.endswith(r) for r in RESAMPLERS)]
     rep.floor(rule, "resampler calls in resize_typed", len(res), 4)
+    if not copy:
+        # renamed? the copy function is the callee that (transitively, one level) copies rows
+        for c in f.calls():
+            for tg in prog.call_targets(c):
+                inner = [tg] + tg.closures()
+                if any(cc.name.endswith("copy_from_slice") for g in inner for cc in g.calls()):
+                    copy.append(c)
     if len(copy) != 1:
         if not copy:
-            rep.bad(rule, "copy-call", f.loc, "resize_typed never calls copy_image: the same-size "
-                    "fast path is gone and every algorithm resamples")
+            if any(prog.call_targets(c) and "copy" in c.name for c in f.calls()):
+                rep.unk(rule, "copy-call", f.loc, "no call recognised as the same-size copy")
+            else:
+                rep.bad(rule, "copy-call", f.loc, "resize_typed calls no row-copying function: "
+                        "the same-size fast path is gone and every algorithm resamples")
         else:
-            rep.unk(rule, "copy-call", f.loc, "%d copy_image calls" % len(copy))
+            rep.unk(rule, "copy-call", f.loc, "%d copy calls" % len(copy))
         return
     copy = copy[0]
+    COPY_NAMES.add(copy.name.rsplit("::", 1)[-1])
     ok_s = fail_s = None
     for (p, s, cond, val) in sym.edge_facts():
         r = _is_copy_ok_edge(cond, val)
@@ -87,7 +101,14 @@ def copy_cond(rep, prog, rule):
     rep.rule(rule, "copy_image returns Ok only on paths where crop.left/top/width/height equal their "
              "rounded values and dst.width()==crop.width, dst.height()==crop.height (same axis), "
              "and the copy itself is copy_from_slice of the cropped rows into iter_rows_mut(0)")
-    f = prog.fn_by_name("resizer::copy_image")
+    try:
+        f = prog.fn_by_name("resizer::copy_image")
+    except Exception:
+        cands = [g for g in prog.fns.values() if g.file == "src/resizer.rs" and g.kind != "closure"
+                 and "DifferentDimensionsError" in g.d.get("output", "")]
+        if len(cands) != 1:
+            raise
+        f = cands[0]
     rep.touch(f)
     sym = Sym(f)
     okb = [b for b, blk in enumerate(f.blocks) if not blk["c"] and any(
@@ -116,6 +137,10 @@ def copy_cond(rep, prog, rule):
     for fld in ("left", "top", "width", "height"):
         if fld in integral:
             rep.ok(rule, "integral|%s" % fld, f.loc, "crop_box.%s == round(..) on the Ok path" % fld)
+        elif any((".%s" % fld) in fmt(c) and any(w in fmt(c) for w in (
+                "fract", "trunc", "floor", "ceil", "round", "Rem")) for c, v in facts):
+            rep.unk(rule, "integral|%s" % fld, f.loc, "crop_box.%s is tested for integrality in "
+                    "an unrecognised form" % fld)
         else:
             rep.bad(rule, "integral|%s" % fld, f.loc,
                     "copy_image can return Ok without `crop_box.%s == crop_box.%s.round()` having "
@@ -190,26 +215,29 @@ def need_pass(rep, prog, rule):
     rep.floor(rule, "need_* flags", found, 2)
 
 
+def none_none(rep, prog, rule):
+    mw = flow.MustWrite(prog, rep)
+    rep.rule(rule, "do_convolution writes the destination on every non-degenerate path, "
+             "including the arm where neither pass is required (must-write summary)")
+    f = prog.fn_by_name("resizer::Resizer::do_convolution")
+    ok, why = mw.mw(f, f.param_index("dst_view"))
+    if ok is True:
+        rep.ok(rule, "do_convolution", f.loc, "all arms write")
+    elif ok is False:
+        if why[0].startswith("root=constify"):
+            rep.ok(rule, "do_convolution", f.loc, "all arms of do_convolution call a writer "
+                   "(kernel-internal finding %s is reported under C05)" % why[0], nontrivial=True)
+        else:
+            rep.bad(rule, why[0], f.loc, " <- ".join(why[1:]))
+    else:
+        rep.unk(rule, "do_convolution", f.loc, "; ".join(why))
+
+
 def run(rep, tier):
     cfgs = ["x86"] if tier == "quick" else ["x86", "x86-rayon", "arm", "wasm"]
     for cfg, prog in programs(cfgs):
         rep.set_cfg(cfg)
-        fast_path(rep, prog, "C12.fast-path")
-        copy_cond(rep, prog, "C12.copy-cond")
-        need_pass(rep, prog, "C12.need-pass")
-        mw = flow.MustWrite(prog, rep)
-        rule = "C12.none-none"
-        rep.rule(rule, "do_convolution writes the destination on every non-degenerate path, "
-                 "including the arm where neither pass is required (must-write summary)")
-        f = prog.fn_by_name("resizer::Resizer::do_convolution")
-        ok, why = mw.mw(f, f.param_index("dst_view"))
-        if ok is True:
-            rep.ok(rule, "do_convolution", f.loc, "all arms write")
-        elif ok is False:
-            if why[0].startswith("root=constify"):
-                rep.ok(rule, "do_convolution", f.loc, "all arms of do_convolution call a writer "
-                       "(kernel-internal finding %s is reported under C05)" % why[0], nontrivial=True)
-            else:
-                rep.bad(rule, why[0], f.loc, " <- ".join(why[1:]))
-        else:
-            rep.unk(rule, "do_convolution", f.loc, "; ".join(why))
+        rep.call(fast_path, rep, prog, "C12.fast-path")
+        rep.call(copy_cond, rep, prog, "C12.copy-cond")
+        rep.call(need_pass, rep, prog, "C12.need-pass")
+        rep.call(none_none, rep, prog, "C12.none-none")
